@@ -15,8 +15,12 @@ package gtree
 // functional statement about its output.
 
 // ---- channel protocols
-// splSent: the concatenation of the blocks the splitter has sent
+// splSent: the concatenation of the blocks the splitter has sent; splSharp: a "# heading" row has been read (from
+// then on list rows in column 0 are children of the heading, not roots - markdown.Parser.calculateHierarchy); splCutOK:
+// so far the splitter has started a new block at a row if and only if that row is a root row of the notation
 //@ ghost var splSent string
+//@ ghost var splSharp bool
+//@ ghost var splCutOK bool
 //@ channel blockChan(b)
 //@   records splSent := splSent ++ b
 
@@ -56,17 +60,21 @@ func specLinesText(lines []string, i int) string {
 //@   carries errc: errChan
 //@   carries result0: blockChan
 //@   carries result1: errChan
-//@   modifies bufio.Scanner.pos, bufio.Scanner.failed, errSent, splSent, ctxDoneSeen
+//@   modifies bufio.Scanner.pos, bufio.Scanner.failed, errSent, splSent, ctxDoneSeen, splSharp, splCutOK
 // the splitter goroutine, for runs in which it saw no cancellation: a failed scan is reported on the error channel (C14);
 // otherwise the blocks sent, concatenated, are the input lines (each with its newline): nothing is dropped or reordered
 // before the generator stage (C02, C15)
 //@ closure gtree.split#1
 //@   requires nn: ctx != nil && sc != nil && sc.pos == 0 && !sc.failed
-//@   modifies bufio.Scanner.pos, bufio.Scanner.failed, errSent, splSent, ctxDoneSeen
+//@   modifies bufio.Scanner.pos, bufio.Scanner.failed, errSent, splSent, ctxDoneSeen, splSharp, splCutOK
+//@   after isRootBlockBeginning: splCutOK := splCutOK && (result == (len(arg0) > 0 && (arg0[0] == '#' || (!splSharp && (arg0[0] == '-' || arg0[0] == '*' || arg0[0] == '+')))))
+//@   after isRootBlockBeginning: splSharp := splSharp || (len(arg0) > 0 && arg0[0] == '#')
+//@   ensures cuts [C02,C15]: old(splCutOK) && !old(splSharp) ==> splCutOK
 //@   ensures reported [C14]: ctxDoneSeen == old(ctxDoneSeen) && sc.failed ==> errSent
 //@   ensures all [C02,C15]: ctxDoneSeen == old(ctxDoneSeen) && !sc.failed ==> splSent == old(splSent) ++ specLinesText(sc.lines, len(sc.lines))
 //@ loop gtree.split#1#1
 //@   invariant rng: 0 <= sc.pos && sc.pos <= len(sc.lines)
+//@   invariant cuts [C02,C15]: old(splCutOK) && !old(splSharp) ==> splCutOK && sharp == splSharp
 //@   invariant sofar: ctxDoneSeen == old(ctxDoneSeen) ==> !sc.failed && splSent ++ block == old(splSent) ++ specLinesText(sc.lines, sc.pos)
 
 // ---- generator stage (root_generator.go)
